@@ -187,8 +187,11 @@ decompress_data(j_decompress_ptr cinfo, _JSAMPIMAGE output_buf)
     /* Process restart marker if needed; may have to suspend */
     if (cinfo->restart_interval) {
       if (diff->restart_rows_to_go == 0)
-        if (!process_restart(cinfo, yoffset))
+        if (!process_restart(cinfo, yoffset)) {
+          /* Suspension forced; resume with this MCU row, not the first one */
+          diff->MCU_vert_offset = yoffset;
           return JPEG_SUSPENDED;
+        }
     }
 
     MCU_col_num = diff->MCU_ctr;
